@@ -1,7 +1,33 @@
-import Sucds.Proofs.WMr
-/-! # C06 — WaveletMatrix quantile/intersect (partial): the range-mapping lemmas shared with C05
-    (`step_false`, `step_true`: the image of a range under one layer is the sub-sequence with that bit). -/
+import Sucds.Proofs.WaveletBackings
+/-! # C06 — WaveletMatrix quantile and intersect equal sort / set semantics of the ranges
+
+Same setting as C05 (every non-empty `s` with representable `alph_size`, `n < 2^63`, three backings, every
+configuration, every argument): `quantile(a..b, k)` is the k-th smallest element of `s[a..b)` when `b ≤ n` and
+`k < b − a` and `None` otherwise (so also for reversed ranges); `intersect(ranges, k)` is `None` iff some range
+ends beyond `n`, and otherwise a strictly ascending list (hence without repeats) holding exactly the values that
+occur in more than `k` of the non-empty ranges. Nothing panics. -/
 namespace Sucds.C06
-theorem range_maps_zero : type_of% (@WMr.step_false) := @WMr.step_false
-theorem range_maps_one : type_of% (@WMr.step_true) := @WMr.step_true
+open Sucds Sucds.Spec Sucds.Wav
+
+def Statement : Prop :=
+  ∀ (c : Cfg) (k : Backing) (s : List Nat), s ≠ [] → s.foldl max 0 + 1 < 2^64 → s.length < 2^63 →
+    ∃ wm, WM.new c k s = .ok (some wm) ∧
+      (∀ a b j, wm.quantile c a b j =
+        .ok (if b ≤ s.length ∧ j < b - a then (SpecX.sort ((s.take b).drop a))[j]? else none)) ∧
+      (∀ ranges j,
+        (ranges.any (fun r => decide (s.length < r.2)) = true → wm.intersect c ranges j = .ok none) ∧
+        (ranges.any (fun r => decide (s.length < r.2)) = false →
+          ∃ out, wm.intersect c ranges j = .ok (some out) ∧ out.Pairwise (· < ·) ∧
+            ∀ x, x ∈ out ↔
+              j < ((ranges.filter fun r => decide (r.1 < r.2)).countP fun r => decide (x ∈ (s.take r.2).drop r.1))))
+
+theorem holds : Statement := by
+  intro c k s hne hmax hn
+  have hn64 : s.length < 2^64 := Nat.lt_of_lt_of_le hn (by decide)
+  obtain ⟨wm, hnew, hb⟩ := new_ok c k s ((backing_ok c k).for _) hne hmax hn64
+  exact ⟨wm, hnew, quantile_ok c wm s hb hn, fun ranges j => intersect_ok c wm s hb hn ranges j⟩
+
+/-- `SpecX.sort` is a sorting function: a sorted permutation of its input -/
+theorem sort_is_sorting : type_of% (@sort_perm) := @sort_perm
+theorem sort_is_sorted : type_of% (@sort_sorted) := @sort_sorted
 end Sucds.C06
